@@ -24,6 +24,8 @@ EXTENDS Naturals, Sequences, FiniteSets
 \*   origin : "create" | "import"
 \*   grant  : the reply value (enum index) that grants a claim
 \*   knownH : TRUE = Deselect(id) ignores id (shipped behaviour, known finding H)
+\*   knownR : TRUE = a failed FinalConstruct() of a shell with a multi-client port may already have sealed the selector, so
+\*            that no later attempt can succeed (shipped behaviour, known finding R); FALSE = a failed attempt changes nothing
 
 RIdx(cx, port, event) == {i \in DOMAIN cx.route : cx.route[i].port = port /\ cx.route[i].event = event}
 HasRoute(cx, port, event) == RIdx(cx, port, event) # {}
@@ -105,7 +107,7 @@ AllBound(cx, st) == Required(cx, st) \subseteq st.bound /\ st.compUnbound = {}
 Final(cx, st) ==
   IF HasMc(cx) /\ st.finals > 0 THEN [st |-> st, obs |-> Obs(st, Bad("runtime_error"), <<>>, {})]       \* already final constructed
   ELSE IF ~AllBound(cx, st)
-       THEN LET s2 == IF HasMc(cx) /\ (\A k \in Required(cx, st) : k[3] = "" \/ k \in st.bound)
+       THEN LET s2 == IF cx.knownR /\ HasMc(cx) /\ (\A k \in Required(cx, st) : k[3] = "" \/ k \in st.bound)
                       THEN [st EXCEPT !.finals = @ + 1, !.phase = "final"]        \* the selector was sealed before the failure
                       ELSE st
             IN [st |-> s2, obs |-> Obs(s2, Bad("binding_error"), <<>>, {})]
